@@ -27,6 +27,12 @@ func (pass *FilterSchemas) processSchema(schema *ast.Schema, allowList *orderedm
 		return allowList.Has(object.SelfRef.String())
 	})
 
+	// the entry point names an object of the schema: it goes away with it
+	if schema.EntryPoint != "" && !schema.Objects.Has(schema.EntryPoint) {
+		schema.EntryPoint = ""
+		schema.EntryPointType = ast.Type{}
+	}
+
 	return schema
 }
 
